@@ -477,16 +477,37 @@ fn check_history(report: &Report, rt: &std::sync::Arc<tokio::runtime::Runtime>, 
             fault_sets.push(files.iter().filter(|f| *f != keep).map(|f| (f.clone(), Fault::Delete)).collect());
         }
     }
-    // query kinds that differ under one fault alone, per (file, fault): the attribution table for pairs
-    let mut single_diffs: std::collections::HashMap<(String, String), std::collections::BTreeSet<String>> = std::collections::HashMap::new();
+    // the whole family rolled back to its content after an earlier op (a restored snapshot, or every
+    // cache write since then lost): every history, with the append phase
+    if !heavy {
+        for j in 0..hist.len().saturating_sub(1) {
+            fault_sets.push(files.iter().map(|f| (f.clone(), Fault::Rollback(j))).collect());
+        }
+    }
+    // query kinds that differ under one fault alone, per (file, fault, phase): the attribution table
+    let mut single_diffs: std::collections::HashMap<(String, String, &'static str), std::collections::BTreeSet<String>> = std::collections::HashMap::new();
     for set in fault_sets {
         if report.over_cap() {
             return;
         }
-        let desc = json!({
-            "file": set.iter().map(|(f, _)| family(f)).collect::<Vec<_>>().join("+"),
-            "fault": set.iter().map(|(_, f)| fault_name(f)).collect::<Vec<_>>().join("+"),
-        });
+        let family_rollback = set.len() > 2 && set.iter().all(|(_, f)| matches!(f, Fault::Rollback(_)));
+        let desc = if family_rollback {
+            json!({"file": "whole_family", "fault": fault_name(&set[0].1)})
+        } else {
+            json!({
+                "file": set.iter().map(|(f, _)| family(f)).collect::<Vec<_>>().join("+"),
+                "fault": set.iter().map(|(_, f)| fault_name(f)).collect::<Vec<_>>().join("+"),
+            })
+        };
+        let attributed = |table: &std::collections::HashMap<(String, String, &'static str), std::collections::BTreeSet<String>>, phase: &'static str| {
+            let mut att = std::collections::BTreeSet::new();
+            for (file, fault) in &set {
+                if let Some(k) = table.get(&(file.clone(), fault_name(fault), phase)) {
+                    att.extend(k.iter().cloned());
+                }
+            }
+            att
+        };
         // faulted copy (closed store), then a fresh authority on it
         let dir = crate::common::scratch_dir("c04f");
         let data = dir.path().join("data");
@@ -506,18 +527,15 @@ fn check_history(report: &Report, rt: &std::sync::Arc<tokio::runtime::Runtime>, 
         report.eval(Some(&(&hist_names, desc.to_string(), "restart")));
         report.count("fault_cases", 1);
         if set.len() > 1 {
-            let mut att = std::collections::BTreeSet::new();
-            for (file, fault) in &set {
-                if let Some(k) = single_diffs.get(&(file.clone(), fault_name(fault))) {
-                    att.extend(k.iter().cloned());
-                }
+            report.count(if family_rollback { "family_rollback_cases" } else { "fault_pair_cases" }, 1);
+            compare_attr(report, hist, &desc, "after_fault", &tail, &found, &truth, Some(&attributed(&single_diffs, "after_fault")));
+            if !family_rollback {
+                continue;
             }
-            report.count("fault_pair_cases", 1);
-            compare_attr(report, hist, &desc, "after_fault", &tail, &found, &truth, Some(&att));
-            continue;
+        } else {
+            let kinds = compare(report, hist, &desc, "after_fault", &tail, &found, &truth);
+            single_diffs.insert((set[0].0.clone(), fault_name(&set[0].1), "after_fault"), kinds);
         }
-        let kinds = compare(report, hist, &desc, "after_fault", &tail, &found, &truth);
-        single_diffs.insert((set[0].0.clone(), fault_name(&set[0].1)), kinds);
         if heavy {
             continue;
         }
@@ -543,7 +561,52 @@ fn check_history(report: &Report, rt: &std::sync::Arc<tokio::runtime::Runtime>, 
         let truth2 = truth_answers(&truth2_fx, &thread, true, 3);
         let found2 = all_answers_ordered(&faulted, &thread, true, 3, true);
         report.eval(Some(&(&hist_names, desc.to_string(), "append")));
-        compare(report, hist, &desc, "after_fault_and_append", &tail, &found2, &truth2);
+        if set.len() > 1 {
+            compare_attr(report, hist, &desc, "after_fault_and_append", &tail, &found2, &truth2, Some(&attributed(&single_diffs, "after_fault_and_append")));
+        } else {
+            let kinds = compare(report, hist, &desc, "after_fault_and_append", &tail, &found2, &truth2);
+            single_diffs.insert((set[0].0.clone(), fault_name(&set[0].1), "after_fault_and_append"), kinds);
+        }
+        drop(faulted);
+        // the other order: the append is the FIRST thing the fresh authority does on the faulted
+        // store (no read has had a chance to repair or warm anything), then the queries
+        announce(json!({"t": "begin", "what": "fault+append_first", "history": hist_names, "fault": desc}));
+        let dir = crate::common::scratch_dir("c04g");
+        let data = dir.path().join("data");
+        let root = dir.path().join("ws");
+        let _ = crate::common::copy_dir(&fx.data, &data);
+        let _ = crate::common::copy_dir(&fx.root, &root);
+        for (file, fault) in &set {
+            apply_fault(&data.join("continuity_streams").join(file), fault, &snapshots);
+        }
+        let faulted = Fx::open(dir, data, root, rt.clone());
+        if let Err(e) = faulted.store().append_message(&thread, "u".into(), "o".into(), "after-fault".into()) {
+            report.violation(
+                &format!("C04:append_after_fault_failed:{}", desc["file"].as_str().unwrap_or("")),
+                json!({"history": hist_names, "fault": desc, "phase": "append_first"}),
+                &format!("append as the first call after the fault failed: {e}"),
+            );
+            continue;
+        }
+        if let Err(e) = faulted.validated() {
+            report.violation(
+                &format!("C04:numbering_poisoned_by_cache:{}:{}", desc["file"].as_str().unwrap_or(""), desc["fault"].as_str().unwrap_or("").split("_op").next().unwrap_or("")),
+                json!({"engine": "H-histories", "harness": "c04.faults", "history": hist_names, "fault": desc, "phase": "append_first"}),
+                &format!("after the fault and one append (first call), validated replay fails: {e}"),
+            );
+            continue;
+        }
+        let truth3_fx = faulted.copy(false);
+        let truth3 = truth_answers(&truth3_fx, &thread, true, 3);
+        let found3 = all_answers_ordered(&faulted, &thread, true, 3, true);
+        report.eval(Some(&(&hist_names, desc.to_string(), "append_first")));
+        report.count("append_first_cases", 1);
+        if set.len() > 1 {
+            compare_attr(report, hist, &desc, "after_fault_append_first", &tail, &found3, &truth3, Some(&attributed(&single_diffs, "after_fault_append_first")));
+        } else {
+            let kinds = compare(report, hist, &desc, "after_fault_append_first", &tail, &found3, &truth3);
+            single_diffs.insert((set[0].0.clone(), fault_name(&set[0].1), "after_fault_append_first"), kinds);
+        }
     }
 }
 
